@@ -6,6 +6,7 @@ from props import c01, dce
 from props import gocomp
 from props import namecat
 from props import gopp
+from props import deftypes
 
 def classify(detail):
     """type classes in an error detail, so that a finding is keyed by its shape, not by names"""
@@ -32,6 +33,13 @@ def _replay_is_dce(path):
 def _replay_is_names(path):
     try:
         return json.load(open(path)).get("signature", {}).get("oracle") == "name-test"
+    except Exception:
+        return False
+
+
+def _replay_is_deftypes(path):
+    try:
+        return json.load(open(path)).get("signature", {}).get("oracle") == "definition-only-type"
     except Exception:
         return False
 
@@ -107,6 +115,13 @@ def run(ctx):
         names_cov, found = namecat.evaluate(ctx, classify)
         for sig, what, payload in found:
             ctx.report(sig, what, payload)
+    # ---- the definition-only type catalogue: every kind of type whose Go spelling names a declaration x every place a
+    # type can be written without a function mentioning it: the real Go of each accepted program under Go.Check
+    deftypes_cov = None
+    if not ctx.replay or _replay_is_deftypes(ctx.replay):
+        deftypes_cov, found = deftypes.evaluate(ctx)
+        for sig, what, payload in found:
+            ctx.report(sig, what, payload)
     ctx.violations.sort(key=lambda v: len(v[2].get("src") or v[2].get("input") or "x" * 10**6))
     cov = {
         "programs": n, "disagreements_checked": len(ctx.violations), "samples": samples or [{"id": "corpus"}],
@@ -115,6 +130,7 @@ def run(ctx):
         "printed_go_text_parsed_back": n_pprint, "accepted_by_gocheck": n_ok, "error_codes": codes, "generator_features": feats,
         "dce": dce_cov,
         "name_tests": names_cov,
+        "definition_only_types": deftypes_cov,
     }
     # ---- the Go back end (go/compile.rs): model = implementation, go_file does not panic
     gocomp.add_to(ctx, "C02", cov)
